@@ -301,7 +301,15 @@ pub fn storage_free_program(r: &mut Rng) -> Vec<u8> {
     for _ in 0..n {
         let v = random_var(r, &mut used);
         let mut a = vm::Asm::new(0);
-        push_key(&mut a, r, &v);
+        if r.chance(1, 4) {
+            // a literal that is the Keccak image of a small slot number (what the compiler emits for
+            // the data of a dynamic array), here with no storage access anywhere
+            use storage_layout_extractor::{tc::lift::proxy_slots::ProxySlots, vm::value::known::KnownWord};
+            let i = [0usize, 1, 3, 7, 9999][r.below(5)];
+            a.push_word(&ProxySlots::sha3_known_words(&[KnownWord::from(i)]).value_le().to_be_bytes());
+        } else {
+            push_key(&mut a, r, &v);
+        }
         match r.below(4) {
             0 => {
                 // keep the key on the stack and compute with it
@@ -691,6 +699,55 @@ pub fn nested_top_field_program(r: &mut Rng) -> Vec<u8> {
     a.finish()
 }
 
+/// storage accesses on a path that ends in a jump to a target that is not a JUMPDEST (run in
+/// permissive mode: the error is tolerated, the path's slots must still be reported)
+pub fn bad_jump_tail_program(r: &mut Rng) -> Vec<u8> {
+    let mut bs: Vec<Vec<u8>> = vec![];
+    for i in 0..1 + r.below(3) {
+        let mut a = vm::Asm::new(0);
+        let slot = |r: &mut Rng| -> Vec<u8> {
+            let mut s = vec![0u8; 32];
+            match r.below(3) {
+                0 => s[31] = r.below(50) as u8,
+                1 => {
+                    s[15] = 1;
+                    s[31] = r.below(50) as u8;
+                }
+                _ => {
+                    s[0] = 0x80 | r.byte();
+                    s[31] = r.below(50) as u8;
+                }
+            }
+            s
+        };
+        for _ in 0..1 + r.below(3) {
+            if r.chance(1, 2) {
+                a.op(0x33);
+                a.push_word(&slot(r));
+                a.op(0x55);
+            } else {
+                a.push_word(&slot(r));
+                a.op(0x54);
+                a.op(0x50);
+            }
+        }
+        match r.below(3) {
+            0 => {
+                a.push_u(1);
+                a.op(0x56);
+            }
+            1 => {
+                a.push_u(0xffff);
+                a.op(0x56);
+            }
+            _ => a.op(0x00),
+        }
+        let _ = i;
+        bs.push(a.bytes);
+    }
+    assemble(&bs, r.below(2))
+}
+
 /// real storage accesses whose results meet look-alike hashes (keccak(key . CONST),
 /// keccak(CONST) + i) in the same expression, outside the access itself
 pub fn mixed_lookalike_program(r: &mut Rng) -> Vec<u8> {
@@ -829,7 +886,17 @@ pub fn mask_chain_program(r: &mut Rng) -> Vec<u8> {
 pub fn random_slot(r: &mut Rng, used: &mut Vec<Vec<u8>>) -> Vec<u8> {
     loop {
         let mut s = vec![0u8; 32];
-        match r.below(9) {
+        match r.below(10) {
+            9 => {
+                // a slot number that shares its leading bytes (8, 16 or 31 of them) with the Keccak
+                // image of a small slot number without being it
+                use storage_layout_extractor::{tc::lift::proxy_slots::ProxySlots, vm::value::known::KnownWord};
+                let i = [0usize, 1, 3, 5, 9999][r.below(5)];
+                let h = ProxySlots::sha3_known_words(&[KnownWord::from(i)]).value_le().to_be_bytes();
+                let keep = [8usize, 16, 31][r.below(3)];
+                s[..keep].copy_from_slice(&h[..keep]);
+                s[31] = h[31].wrapping_add(1 + r.below(200) as u8);
+            }
             8 => {
                 // a slot number whose bytes read as text (what the proxy-slot pass looks for in hashes)
                 let n = 1 + r.below(31);
